@@ -26,6 +26,7 @@ package main
 
 import (
 	"fmt"
+	"os"
 	"go/ast"
 	"go/token"
 	"go/types"
@@ -72,6 +73,16 @@ var c18exact = map[string][]c18clause{
 	".Prefixed": {
 		{"prefix of at least one column", lin{"$p1": 1, "": -1}, "<"},
 		{"prefix within the columns", lin{"$p1": 1, "$p0.NumOut()": -1}, ">"},
+	},
+	".Const": {
+		{"at least one column", lin{"len($p1)": 1}, "=="},
+		{"at least one shard", lin{"$p0": 1, "": -1}, "<"},
+	},
+	".Cogroup": {
+		{"at least one slice", lin{"len($p0)": 1}, "=="},
+		{"every slice has columns", lin{"$p0[*].NumOut()": 1}, "=="},
+		{"every slice has the key prefix of the first", lin{"$p0[*].Prefix()": 1, "len(@[]reflect.Type.0)": -1}, "!="},
+		{"every slice has the key column types of the first", lin{"$p0[*].Out(@[]reflect.Type.0[#])": 1, "@[]reflect.Type.0[@[]reflect.Type.0[#]]": -1}, "!="},
 	},
 	".Func": {
 		{"the argument is a func", lin{"reflect.ValueOf($p0).Type().Kind()": 1, "": -19}, "!="}, // reflect.Func == 19
@@ -192,13 +203,26 @@ func c18r8(c *RC) {
 			}
 			return t
 		}
+		roles := c18localRoles(fn, le, fnLocal)
 		norm := func(e ast.Expr) lin {
 			l := le.norm(e, 0)
 			out := lin{}
 			for t, k := range l {
-				t = expand(t)
 				if fnLocal != "" {
 					t = replaceWord(t, fnLocal, "$fn")
+				}
+				for _, r := range roles {
+					t = replaceWord(t, r[0], r[1])
+				}
+				t = expand(t)
+				if fnLocal != "" {
+					t = strings.ReplaceAll(replaceWord(t, fnLocal, "$fn"), "$$fn", "$fn")
+				}
+				for _, r := range roles {
+					t = replaceWord(t, r[0], r[1])
+				}
+				if os.Getenv("BSVET_C18_DEBUG") != "" {
+					fmt.Fprintf(os.Stderr, "c18r8 %s: term %q\n", q, t)
 				}
 				out[t] += k
 			}
@@ -243,11 +267,18 @@ func c18r8(c *RC) {
 						}
 						d := norm(be.X)
 						d.addScaled(norm(be.Y), -1)
-						switch {
-						case linEq(d, cl.form, 1):
-							return truthUnder(be.Op, cl.rel)
-						case linEq(d, cl.form, -1):
-							return truthUnder(be.Op, flipRel(cl.rel))
+						// d = s*F + c for the clause's quantity F (integers): the
+						// scenario bounds F, hence d, and `d op 0` is decided when it
+						// has one value over the whole range
+						for _, sgn := range []int{1, -1} {
+							rest := lin{}
+							rest.addScaled(d, 1)
+							rest.addScaled(cl.form, -sgn)
+							nz := nonZero(rest)
+							if len(nz) > 1 || (len(nz) == 1 && nz[0] != "") {
+								continue
+							}
+							return truthInRange(be.Op, cl.rel, sgn, int64(rest[""]))
 						}
 						return false, false
 					})
@@ -263,7 +294,7 @@ func c18r8(c *RC) {
 				fmt.Sprintf("%s no longer certainly rejects an argument that violates \"%s\" (%s %s 0): no typecheck-panic guard is taken when this clause alone fails, so a combination outside the documented schema is accepted and misbehaves at run time", strings.TrimPrefix(q, "."), cl.what, cl.form.String(), cl.rel))
 		}
 	}
-	c.Floor("exact-shape clauses", n, 21)
+	c.Floor("exact-shape clauses", n, 27)
 
 	// slicefunc.Of: the context parameter is recognised by identity
 	of := pr.Fn("slicefunc.Of")
@@ -360,4 +391,200 @@ func c18initMentions(pk *Pkg, v *types.Var, s string) bool {
 		}
 	}
 	return found
+}
+
+// c18localRoles names the locals of a constructor that cannot be expanded to
+// their single definition by what they stand for, so that no clause depends
+// on how a local is spelled: the value (key) variable of a `range` over E is
+// "E[*]" ("E[#]"); a field of a local that is stored exactly once
+// (`s.nshard = nshard`) is the stored expression; a local assigned more than
+// once is "@T" when it is the only such local of type T.  Returned as
+// (word, replacement) pairs, longest word first, applied to the text of each
+// term before the single-definition expansion.
+func c18localRoles(fn *Func, le *linEnv, skip string) [][2]string {
+	var out [][2]string
+	pk := fn.Pkg
+	// multi-definition locals, unique by type
+	byType := map[string][]string{}
+	seen := map[types.Object]bool{}
+	inspectNoLit(fn.Body, func(nd ast.Node) bool {
+		id, ok := nd.(*ast.Ident)
+		if !ok {
+			return true
+		}
+		o, ok := pk.Info.Defs[id].(*types.Var)
+		if !ok || o.IsField() || seen[o] {
+			return true
+		}
+		seen[o] = true
+		if _, single := le.defs[o]; single {
+			return true
+		}
+		if o.Name() == skip {
+			return true
+		}
+		byType[typeString(o.Type())] = append(byType[typeString(o.Type())], o.Name())
+		return true
+	})
+	rangeVars := map[string]bool{}
+	inspectNoLit(fn.Body, func(nd ast.Node) bool {
+		if rs, ok := nd.(*ast.RangeStmt); ok {
+			for _, e := range []ast.Expr{rs.Key, rs.Value} {
+				if id, ok := e.(*ast.Ident); ok {
+					rangeVars[id.Name] = true
+				}
+			}
+		}
+		return true
+	})
+	typed := map[string]string{}
+	for t, names := range byType {
+		var ns []string
+		for _, n := range names {
+			if !rangeVars[n] && n != "_" {
+				ns = append(ns, n)
+			}
+		}
+		// unique by type, or else numbered in declaration order
+		for i, n := range ns {
+			if len(ns) == 1 {
+				typed[n] = "@" + t
+			} else {
+				typed[n] = "@" + t + "." + itoa(i)
+			}
+		}
+	}
+	sub := func(t string) string {
+		t = canonText(fn, strings.ReplaceAll(t, " ", ""))
+		for n, r := range typed {
+			t = replaceWord(t, n, r)
+		}
+		return t
+	}
+	// range variables (names that are bound by exactly one range statement)
+	count := map[string]int{}
+	bind := map[string]string{}
+	bindAll := map[string]map[string]bool{}
+	noteBind := func(n, b string) {
+		if bindAll[n] == nil {
+			bindAll[n] = map[string]bool{}
+		}
+		bindAll[n][b] = true
+	}
+	inspectNoLit(fn.Body, func(nd ast.Node) bool {
+		rs, ok := nd.(*ast.RangeStmt)
+		if !ok {
+			return true
+		}
+		if id, ok := rs.Key.(*ast.Ident); ok && id.Name != "_" {
+			count[id.Name]++
+			bind[id.Name] = sub(expr(rs.X)) + "[#]"
+			noteBind(id.Name, bind[id.Name])
+		}
+		if id, ok := rs.Value.(*ast.Ident); ok && id.Name != "_" {
+			count[id.Name]++
+			bind[id.Name] = sub(expr(rs.X)) + "[*]"
+			noteBind(id.Name, bind[id.Name])
+		}
+		return true
+	})
+	// fields of locals stored exactly once
+	fcount := map[string]int{}
+	fdef := map[string]string{}
+	inspectNoLit(fn.Body, func(nd ast.Node) bool {
+		as, ok := nd.(*ast.AssignStmt)
+		if !ok {
+			return true
+		}
+		for i, l := range as.Lhs {
+			se, ok := l.(*ast.SelectorExpr)
+			if !ok {
+				continue
+			}
+			id, ok := se.X.(*ast.Ident)
+			if !ok {
+				continue
+			}
+			if v, ok := pk.Info.Uses[id].(*types.Var); !ok || v.Parent() == nil || v.Parent() == pk.Types.Scope() {
+				continue
+			}
+			key := canonText(fn, strings.ReplaceAll(expr(se), " ", ""))
+			fcount[key]++
+			if as.Tok == token.ASSIGN && len(as.Lhs) == len(as.Rhs) {
+				fdef[key] = sub(expr(as.Rhs[i]))
+			}
+		}
+		return true
+	})
+	for k, n := range fcount {
+		if n == 1 && fdef[k] != "" {
+			out = append(out, [2]string{k, fdef[k]})
+		}
+	}
+	for n := range count {
+		if len(bindAll[n]) == 1 {
+			out = append(out, [2]string{n, bind[n]})
+		}
+	}
+	for n, r := range typed {
+		out = append(out, [2]string{n, r})
+	}
+	sort.Slice(out, func(i, j int) bool {
+		if len(out[i][0]) != len(out[j][0]) {
+			return len(out[i][0]) > len(out[j][0])
+		}
+		return out[i][0] < out[j][0]
+	})
+	return out
+}
+
+// truthInRange: the value of `d op 0` for d = sgn*F + c, F an integer with
+// `F rel 0` (rel one of "==", "<", ">"); known=false when it differs over the
+// range.
+func truthInRange(op token.Token, rel string, sgn int, c int64) (bool, bool) {
+	const inf = int64(1) << 40
+	var lo, hi int64
+	switch rel {
+	case "==":
+		lo, hi = 0, 0
+	case "<":
+		lo, hi = -inf, -1
+	case ">":
+		lo, hi = 1, inf
+	default:
+		return false, false
+	}
+	if sgn < 0 {
+		lo, hi = -hi, -lo
+	}
+	if lo > -inf {
+		lo += c
+	}
+	if hi < inf {
+		hi += c
+	}
+	decide := func(allTrue, allFalse bool) (bool, bool) {
+		switch {
+		case allTrue:
+			return true, true
+		case allFalse:
+			return false, true
+		}
+		return false, false
+	}
+	switch op {
+	case token.LSS:
+		return decide(hi < 0, lo >= 0)
+	case token.LEQ:
+		return decide(hi <= 0, lo > 0)
+	case token.GTR:
+		return decide(lo > 0, hi <= 0)
+	case token.GEQ:
+		return decide(lo >= 0, hi < 0)
+	case token.EQL:
+		return decide(lo == 0 && hi == 0, hi < 0 || lo > 0)
+	case token.NEQ:
+		return decide(hi < 0 || lo > 0, lo == 0 && hi == 0)
+	}
+	return false, false
 }
